@@ -84,7 +84,7 @@ int main(int argc, char** argv) {
           var a = mkarg(kind, val); args[na++] = a; nconv++;
           char r[16384]; int n = 0;
           if (kind == 'I') n = snprintf(r, sizeof r, spec, c_int(a));            /* the value exactly as print_to hands it to the C library */
-          else if (kind == 'F') n = snprintf(r, sizeof r, spec, c_float(a));
+          else if (kind == 'F') n = strchr(spec, 'L') ? snprintf(r, sizeof r, spec, (long double)c_float(a)) : snprintf(r, sizeof r, spec, c_float(a));
           else if (kind == 'S') n = snprintf(r, sizeof r, spec, c_str(a));
           else n = snprintf(r, sizeof r, spec, a);
           if (n < 0) n = 0; if (n >= (int)sizeof r) n = sizeof r - 1;
@@ -217,7 +217,11 @@ int main(int argc, char** argv) {
         ev_str("exc", e1[0] ? e1 : e2); ev_str("msg", e1[0] ? m1 : hc_msg); ev_int("line", cur_line); ev_end();
         del_raw(v); if (holder) del_raw(holder); else del_raw(back);
       } else {
-        char spec[64]; snprintf(spec, sizeof spec, "%%%s ", hc_w[3]);
+        /* <spec> or <spec>|<sephex> : the conversion and the separator that follows every value (default: one blank) */
+        char spec[96]; { char conv[40]; char sep[24] = " "; snprintf(conv, sizeof conv, "%s", hc_w[3]); char* bar = strchr(conv, '|');
+          if (bar) { *bar = 0; unhex(bar + 1, sep, sizeof sep); }
+          snprintf(spec, sizeof spec, "%%%s%s", conv, sep); }
+        char convonly[40]; snprintf(convonly, sizeof convonly, "%s", hc_w[3]); { char* bar = strchr(convonly, '|'); if (bar) *bar = 0; }
         char kind = hc_w[4][0]; int n = (int)hc_int(5);
         var vs[64]; int pos = pos0; int posw[65]; const char* exc = ""; char m1[160] = "";
         for (int i = 0; i < n && i < 60; i++) { vs[i] = mkarg(kind, hc_w[6 + i]); posw[i] = pos; volatile int p = pos; HC_TRY(p = print_to(s, pos, spec, vs[i])); if (hc_exc[0] && !exc[0]) { exc = hc_exc; strcpy(m1, hc_msg); } pos = p; }
@@ -231,10 +235,10 @@ int main(int argc, char** argv) {
           if (!exc[0]) { HC_TRY(p = scan_from(s, pos, spec, back)); e2 = hc_exc; }
           ev_begin("round"); ev_str("via", "print"); ev_str("sink", isfile ? "F" : "S"); ev_str("kind", kind == 'I' ? "I" : "F");
           char* txt = outb + (posw[i] < (int)on ? posw[i] : (int)on);
-          if (kind == 'I') { raw_int("v", c_int(vs[i])); raw_int("back", c_int(back)); raw_int("denoted", strcmp(hc_w[3], "$") && strchr(hc_w[3], 'u') ? (int64_t)strtoull(txt, NULL, 10) : strtoll(txt, NULL, 10)); }
+          if (kind == 'I') { raw_int("v", c_int(vs[i])); raw_int("back", c_int(back)); raw_int("denoted", strcmp(convonly, "$") && strchr(convonly, 'u') ? (int64_t)strtoull(txt, NULL, 10) : strtoll(txt, NULL, 10)); }
           else { raw_flt("v", c_float(vs[i])); raw_flt("back", c_float(back));
                  /* without an l the conversion reads a C float: the value the text denotes in single precision */
-                 raw_flt("denoted", (strcmp(hc_w[3], "$") && !strchr(hc_w[3], 'l')) ? (double)strtof(txt, NULL) : strtod(txt, NULL)); }
+                 raw_flt("denoted", (strcmp(convonly, "$") && !strchr(convonly, 'l') && !strchr(convonly, 'L')) ? (double)strtof(txt, NULL) : strtod(txt, NULL)); }
           ev_int("wrote", posw[i + 1] - posw[i]); ev_int("consumed", p - pos);
           bytes_key("text", txt, (size_t)(posw[i + 1] - posw[i] > 0 && posw[i + 1] <= (int)on ? posw[i + 1] - posw[i] : 0));
           ev_str("exc", exc[0] ? exc : e2); ev_str("msg", exc[0] ? m1 : hc_msg); ev_int("line", cur_line); ev_end();
